@@ -535,8 +535,25 @@ def monitorOp (mu : Mon) (prev : Args) (toks : List String) (implOk : Bool) (out
       let t := tallyOf O.votes p.id
       let expd := isExp p.expires blk
       let sid := s!"id={p.id} status={p.status} thr={renderThr p.thr} total={p.total} yes={t.yes} no={t.no} abstain={t.abstain} veto={t.veto} expired={expd}"
+      -- a proposal created after a group update in its own block records the post-update total while voters
+      -- use the start-of-block snapshot (open finding D3): its outcome is judged against the snapshot total,
+      -- and what fails is reported under the known finding's signature
+      let dirty := mu.createdDirty.contains p.id
+      let snTotal : Option Nat := match findRaw O p.id with
+        | some r => (snapAt O r.start).map (·.total)
+        | none => none
+      if dirty && snTotal != some p.total then
+        (match snTotal with
+          | some st =>
+            let base := max st t.total
+            if (p.status == "passed" || p.status == "executed") && !(passes p.thr base t true true) && isExp p.expires blk then
+              [mk "C03" "C03/flex/propose-after-group-update-in-same-block/passed-below-threshold"
+                s!"{sid} snapshot_total={st}"]
+            else []
+          | none => [])
+      else
       -- premise of C03: ballots do not outweigh the total (C06)
-      if t.total > p.total then [] else
+      if t.total > p.total then [mk "C03" "C03/flex/ballots-outweigh-total" sid] else
       (match findRaw O p.id with
         | some r => if r.yes == t.yes && r.no == t.no && r.abstain == t.abstain && r.veto == t.veto then []
                     else [mk "C03" "C03/tally-ne-ballots" s!"{sid} stored={r.yes}.{r.no}.{r.abstain}.{r.veto}"]
